@@ -444,6 +444,72 @@ func c14TwoModules(chk *fw.Check) int {
 	return n
 }
 
+// c14Reload: instances come and go (what configuration reloads do). Two instances are provisioned, one of them is
+// cleaned up, a third one is provisioned; the survivor (1h) caches a status, the responder flips, the newcomer
+// (default_cache_duration 0) is asked about the same certificate: it asks the responder and rejects. All choices of which
+// of the two is cleaned up and of the order survivor-caches / newcomer-is-provisioned.
+func c14Reload(chk *fw.Check) int {
+	p := world.Std()
+	n := 0
+	for _, cleanFirst := range []bool{true, false} {
+		for _, cacheBeforeNewcomer := range []bool{true, false} {
+			for _, more := range []int{0, 2} {
+				n++
+				sig := fmt.Sprintf("cleaned-up=%s survivor-caches-before-the-newcomer-is-provisioned=%v further-instances-come-and-go=%d", map[bool]string{true: "the-older-of-two", false: "the-younger-of-two"}[cleanFirst], cacheBeforeNewcomer, more)
+				seqWorld(func() {
+					net := world.NewNet()
+					revoked := false
+					net.Routes[c14URLA] = &world.Behaviour{Label: "ocsp", Fn: func(req *http.Request, body []byte) (int, []byte, error) {
+						r, err := xocsp.ParseRequest(body)
+						if err != nil {
+							return 400, nil, nil
+						}
+						st := xocsp.Good
+						if revoked {
+							st = xocsp.Revoked
+						}
+						return 200, world.BuildOCSP(world.OCSPAnswer{Status: st, Serial: r.SerialNumber, Issuer: p.CA, Signer: p.CA, ThisUpdate: vsched.Now().Add(-time.Minute)}), nil
+					}}
+					mk := func(dur string) *TW {
+						w := NewTW(TWOpt{Mode: "ocsp_only", Net: net, OCSP: &config.OCSPConfig{DefaultCacheDuration: dur}})
+						if err := w.Provision(); err != nil {
+							panic("c14Reload: " + err.Error())
+						}
+						return w
+					}
+					a, b := mk("1h"), mk("1h")
+					survivor, gone := b, a
+					if !cleanFirst {
+						survivor, gone = a, b
+					}
+					for i := 0; i < more; i++ {
+						x := mk("1h")
+						x.Cleanup()
+					}
+					gone.Cleanup()
+					l := world.Leaf(p.CA, bi(5200), nil, []string{c14URLA})
+					var newcomer *TW
+					if cacheBeforeNewcomer {
+						survivor.Handshake(world.Chain(l, p.CA, p.Root))
+						newcomer = mk("0s")
+					} else {
+						newcomer = mk("0s")
+						survivor.Handshake(world.Chain(l, p.CA, p.Root))
+					}
+					revoked = true
+					before := len(net.Hits)
+					if v := newcomer.Handshake(world.Chain(l, p.CA, p.Root)); !v.Rejected() || len(net.Hits) == before {
+						chk.Violation("C14|hit-with-zero-lifetime|instance-provisioned-after-another-was-cleaned-up|"+sig, fmt.Sprintf("an instance with default_cache_duration 0, provisioned after another instance of the process had been cleaned up, answered %s with %d request(s) for a certificate whose status a surviving 1h instance had cached before the responder flipped to revoked", v, len(net.Hits)-before), nil)
+					}
+					newcomer.Cleanup()
+					survivor.Cleanup()
+				})
+			}
+		}
+	}
+	return n
+}
+
 // RunC14 is the entry point of the C14 check.
 func RunC14(tier string, args []string) int {
 	chk := fw.NewCheck("C14", tier, "model_checking")
@@ -501,7 +567,7 @@ func RunC14(tier string, args []string) int {
 	}
 	samples = append(samples, map[string]interface{}{"config": "default=10m nextUpdate=absent", "history": []string{"lookup(c1,V1)", "advance(L/2)", "lookup(c1,V1)", "advance(L/2)", "flipA(c1->revoked)", "lookup(c1,V1)"}})
 	samples = append(samples, map[string]interface{}{"config": "default=10m nextUpdate=absent", "history": []string{"lookup(c1',V1)", "flipA(c1->revoked)", "lookup(c1,V2)"}})
-	pairCases := c14IssuerPairs(chk) + c14TwoModules(chk)
+	pairCases := c14IssuerPairs(chk) + c14TwoModules(chk) + c14Reload(chk)
 	cov := fw.Coverage{
 		"states":                        total.States + pairCases,
 		"transitions":                   total.Transitions + 2*pairCases,
